@@ -5,7 +5,7 @@ seed=$1; shift
 props="$@"; [ -z "$props" ] && props=${seed:0:3}
 cd /repo || exit 2
 if [ -n "$(git status --porcelain --untracked-files=no)" ]; then echo "/repo is dirty"; exit 2; fi
-git apply /verif/seeded/$seed/patch.diff || { echo "$seed: patch does not apply"; exit 2; }
+git apply /verif/seeded/$seed/patch.diff 2>/dev/null || { echo "$seed: patch does not apply"; exit 2; }
 cd /verif
 for p in $props; do
   extra=""; [ -f /verif/coq/props/$p.v ] || extra="--no-gate"
